@@ -1073,12 +1073,16 @@ def gen_multi(seed, idbase=0, nops=250, nmaps=3, name="multi"):
     if "b.x" not in names or "b.y" not in names:
         names[0], names[1 % nmaps] = "b.x", "b.y"
     names = list(dict.fromkeys(names))
+    # two names that differ only in letter case, with the SAME key type (one registry): still two maps
+    casepair = rng.choice([("idx", "IDX"), ("Log.a", "log.a"), ("a", "A")])
+    names = [x for x in names if x not in casepair] + list(casepair)
+    pair_kt = rng.choice(KTS)
     s.op("open_db", db=0, dir="d")
     s.op("clone_db", db=1, **{"from": 0})
     maps = []
     nh = 0
     for nm in names:
-        kt = rng.choice(KTS)
+        kt = pair_kt if nm in casepair else rng.choice(KTS)
         nh += 1
         s.op("map", h=nh, db=0, name=nm, kt=kt, params={"buckets": rng.choice([["BucketsSize", 4], ["BucketsSize", 64], ["Capacity", 30]])})
         maps.append(dict(name=nm, kt=kt, hs=[nh], keys=_mk_keys(s, rng, kt, 10)))
@@ -1273,8 +1277,10 @@ def gen_readonly(seed, idbase=0, nb=("BucketsSize", 16), state="dense", kt="byte
             s.op(rng.choice(["flush", "sync_all", "sync_data"]), h=1)
     s.op("dump", h=1)
     s.op("new_process")
-    s.op("digest", dir="d", name="m", tag="after")
-    s.op("note", conj="C15.bytes", same=["before", "after"])
+    # ("always": also when a read-only call above did not return and the worker was killed - what the files
+    #  look like then is still an observation about read-only calls)
+    s.op("digest", dir="d", name="m", tag="after", always=True)
+    s.op("note", conj="C15.bytes", same=["before", "after"], always=True)
     s.op("child_dump", dir="d", name="m", kt=kt)
     return s
 
